@@ -336,16 +336,25 @@ Proof.
 Qed.
 
 
-Lemma two_types_kwargs : forall type_ o nm, two_types type_ ->
+Lemma known_type_cases : forall type_, known_type type_ = true ->
+    type_ = L "class" \/ type_ = L "function" \/ type_ = L "argparse".
+Proof.
+  intros type_ H. unfold known_type in H.
+  apply orb_true_iff in H. destruct H as [H|H]; [apply orb_true_iff in H; destruct H as [H|H]|];
+    apply str_eqb_eq in H; auto.
+Qed.
+
+Lemma known_kwargs : forall type_ o nm, known_type type_ = true ->
     exists kw, type_kwargs type_ o nm = Some kw
                /\ emit_binds (emit_attr type_) ((L "emit_default_doc", KBool (o_emit_default_doc o)) :: kw) = true.
 Proof.
-  intros type_ o nm [E|E]; subst type_; eexists; split; reflexivity.
+  intros type_ o nm H. destruct (known_type_cases type_ H) as [E|[E|E]]; subst type_; eexists; split; reflexivity.
 Qed.
 
-(* when every conversion returns a text: one text per entry in mapping order, and the names *)
+(* when every conversion returns a text: one text per entry in mapping order, and the names;
+   for each of the three output types *)
 Lemma run_entries_ok : forall tpl type_ o es names,
-    two_types type_ -> forallb is_emitted es = true -> names_of tpl es = GOk names ->
+    known_type type_ = true -> forallb is_emitted es = true -> names_of tpl es = GOk names ->
     snd (run_entries tpl type_ o es) = GOk (names, texts_of es).
 Proof.
   intros tpl type_ o es. induction es as [|e r IH]; intros names HT HE HN.
@@ -354,18 +363,10 @@ Proof.
     cbn in HE. apply andb_true_iff in HE. destruct HE as [He Hr].
     cbn [run_entries]. rewrite Hn.
     unfold is_emitted in He. destruct (e_res e) as [k| |k|text] eqn:ER; try discriminate He.
-    destruct (two_types_kwargs type_ o n HT) as [kw [Hkw Hb]]. rewrite Hkw, Hb. cbn [negb].
+    destruct (known_kwargs type_ o n HT) as [kw [Hkw Hb]]. rewrite Hkw, Hb. cbn [negb].
     specialize (IH ns HT Hr Hns).
     destruct (run_entries tpl type_ o r) as [tr rr]. cbn [snd] in *. rewrite IH.
     unfold texts_of. cbn [map]. rewrite ER. reflexivity.
-Qed.
-
-Lemma known_type_cases : forall type_, known_type type_ = true ->
-    type_ = L "class" \/ type_ = L "function" \/ type_ = L "argparse".
-Proof.
-  intros type_ H. unfold known_type in H.
-  apply orb_true_iff in H. destruct H as [H|H]; [apply orb_true_iff in H; destruct H as [H|H]|];
-    apply str_eqb_eq in H; auto.
 Qed.
 
 (* an entry whose conversion did not return a text ends the run with an exception *)
@@ -388,39 +389,7 @@ Proof.
     rewrite Hk. exists k. reflexivity.
 Qed.
 
-(* type_ = function: the first entry that gets as far as the emitter raises TypeError; no entry ever
-   yields a text *)
-Lemma run_entries_function : forall tpl o es, es <> [] ->
-    exists k, snd (run_entries tpl (L "function") o es) = GErr k.
-Proof.
-  intros tpl o [|e r] H; [contradiction|]. cbn [run_entries].
-  destruct (format_name tpl (e_name e)) as [nm|k]; [|eexists; reflexivity].
-  destruct (e_res e) as [k| |k|text]; eexists; reflexivity.
-Qed.
-
-Lemma run_entries_function_typeerror : forall tpl o e r nm,
-    format_name tpl (e_name e) = GOk nm -> (forall k, e_res e <> ParseRaises k) ->
-    snd (run_entries tpl (L "function") o (e :: r)) = GErr xTypeError.
-Proof.
-  intros tpl o e r nm Hn Hp. cbn [run_entries]. rewrite Hn.
-  destruct (e_res e) as [k| |k|text]; try reflexivity. exfalso. apply (Hp k). reflexivity.
-Qed.
-
 (* ================================================================== gen ends with an exception *)
-Lemma gen_fails_function : forall ps gi,
-    gi_type gi = L "function" -> (forall es, gi_mapping gi = GOk es -> es <> []) ->
-    exists k, snd (gen ps gi) = GErr k.
-Proof.
-  intros ps gi HT HM. unfold gen. rewrite HT. cbn [known_type negb].
-  change (negb (known_type (L "function"))) with false. cbv iota.
-  destruct (imports_phase ps gi) as [tr1 imp]. destruct imp as [imports|k]; [|eexists; reflexivity].
-  destruct (negb (has_dot (gi_input_mapping gi))); [eexists; reflexivity|].
-  destruct (gi_mapping gi) as [es|k] eqn:EM; [|eexists; reflexivity].
-  destruct (run_entries_function (gi_name_tpl gi) (gi_opts gi) es (HM es eq_refl)) as [k Hk].
-  destruct (run_entries (gi_name_tpl gi) (L "function") (gi_opts gi) es) as [tr2 r2].
-  cbn [snd] in Hk. rewrite Hk. eexists; reflexivity.
-Qed.
-
 Lemma gen_fails_entry : forall ps gi es,
     gi_mapping gi = GOk es -> forallb is_emitted es = false -> exists k, snd (gen ps gi) = GErr k.
 Proof.
@@ -539,24 +508,21 @@ Proof.
   apply unparse_rest_parses; assumption.
 Qed.
 
-(* ---- the header: prepend followed by the glued import texts *)
-Definition prepend_text (gi : gen_in) : str := match gi_prepend gi with Some p => p | None => [] end.
-
-Definition file_imports (gi : gen_in) : list top :=
-  match gi_imports_from_file gi with
-  | Some (GOk f) => match parse_src f with Some tops => get_at_root_imports tops | None => [] end
-  | _ => []
-  end.
-
-Definition imports_text (gi : gen_in) : str := concat (map top_text (file_imports gi)).
-
-Lemma file_imports_length : forall gi, List.length (file_imports gi) = n_file_imports parse_src gi.
+(* ---- the header: the prepend argument followed by the import texts, one per line *)
+Lemma parse_join_nl : forall tops, Forall (wf_top parse_src) tops ->
+    parse_src (join [nl] (map top_text tops)) = Some tops.
 Proof.
-  intros gi. unfold file_imports, n_file_imports.
-  destruct (gi_imports_from_file gi) as [[f|k]|]; try reflexivity. destruct (parse_src f); reflexivity.
+  intros tops H. induction H as [|t r [Ht _] Hr IH].
+  - apply (P_empty _ PL).
+  - destruct r as [|t2 r2].
+    + cbn. exact Ht.
+    + change (join [nl] (map top_text (t :: t2 :: r2)))
+        with (top_text t ++ [nl] ++ join [nl] (map top_text (t2 :: r2))).
+      cbn [app]. change (t :: t2 :: r2) with ([t] ++ t2 :: r2).
+      apply (P_concat _ PL); [exact Ht|exact IH].
 Qed.
 
-Lemma file_imports_wf : forall gi, Forall (wf_top parse_src) (file_imports gi).
+Lemma file_imports_wf : forall gi, Forall (wf_top parse_src) (file_imports parse_src gi).
 Proof.
   intros gi. unfold file_imports.
   destruct (gi_imports_from_file gi) as [[f|k]|]; try constructor.
@@ -564,45 +530,46 @@ Proof.
   apply Forall_filter. apply (P_canon _ PL f). exact E.
 Qed.
 
-Lemma header_of_split : forall gi header, header_of parse_src gi = Some header ->
-    exists ptops, parse_src (prepend_text gi) = Some ptops /\ header = ptops ++ file_imports gi.
+(* what parses to the statements of prepend: the text before the newline the prepend argument ends with *)
+Lemma prepend_arg_shape : forall prepend ptops,
+    match prepend with None => Some [] | Some p => parse_src p end = Some ptops ->
+    (prepend_arg prepend = [] /\ ptops = [])
+    \/ exists q, prepend_arg prepend = q ++ [nl] /\ parse_src q = Some ptops.
 Proof.
-  intros gi header H. unfold header_of in H. unfold prepend_text, file_imports.
-  destruct (gi_prepend gi) as [p|].
-  - destruct (parse_src p) as [a|]; [|discriminate].
-    destruct (gi_imports_from_file gi) as [[f|k]|].
-    + destruct (parse_src f) as [tops|]; [|discriminate]. cbn in H. inversion H. exists a. split; reflexivity.
-    + discriminate.
-    + inversion H. exists a. split; reflexivity.
-  - rewrite (P_empty _ PL).
-    destruct (gi_imports_from_file gi) as [[f|k]|].
-    + destruct (parse_src f) as [tops|]; [|discriminate]. cbn in H. inversion H. exists []. split; reflexivity.
-    + discriminate.
-    + inversion H. exists []. split; reflexivity.
+  intros [p|] ptops H; cbn [prepend_arg].
+  - destruct p as [|c p'].
+    + left. rewrite (P_empty _ PL) in H. inversion H. split; reflexivity.
+    + right. cbn [nonempty]. destruct (endswith [nl] (c :: p')) eqn:E.
+      * apply endswith_iff in E. destruct E as [q Hq]. exists q. split; [exact Hq|].
+        rewrite Hq in H. rewrite (P_trail _ PL) in H. exact H.
+      * exists (c :: p'). split; [reflexivity|exact H].
+  - left. inversion H. split; reflexivity.
 Qed.
 
+Lemma header_of_split : forall gi header, header_of parse_src gi = Some header ->
+    exists ptops, match gi_prepend gi with None => Some [] | Some p => parse_src p end = Some ptops
+                  /\ header = ptops ++ file_imports parse_src gi.
+Proof.
+  intros gi header H. unfold header_of in H. unfold file_imports.
+  destruct (match gi_prepend gi with None => Some [] | Some p => parse_src p end) as [a|]; [|discriminate].
+  destruct (gi_imports_from_file gi) as [[f|k]|].
+  - destruct (parse_src f) as [tops|]; [|discriminate]. cbn in H. inversion H. exists a. split; reflexivity.
+  - discriminate.
+  - inversion H. exists a. split; reflexivity.
+Qed.
+
+(* the header parses to the statements of prepend followed by the imports, however many there are
+   and whether or not prepend ends in a newline *)
 Lemma header_parses : forall gi header,
     header_of parse_src gi = Some header ->
-    n_file_imports parse_src gi <= 1 ->
-    (1 <= n_file_imports parse_src gi -> prepend_open_line gi = false) ->
-    parse_src (prepend_text gi ++ imports_text gi) = Some header.
+    parse_src (prepend_arg (gi_prepend gi) ++ imports_text parse_src gi) = Some header.
 Proof.
-  intros gi header HH HN HO.
+  intros gi header HH.
   destruct (header_of_split gi header HH) as [ptops [HP E]]. subst header.
-  rewrite <- file_imports_length in HN, HO. unfold imports_text.
-  pose proof (file_imports_wf gi) as HW.
-  destruct (file_imports gi) as [|i [|i2 r]]; [| |cbn in HN; lia].
-  - cbn. rewrite !app_nil_r. exact HP.
-  - inversion HW as [|x l Hw _]; subst. destruct Hw as [Hw1 _].
-    cbn [map concat]. rewrite app_nil_r.
-    specialize (HO (le_n 1)). unfold prepend_open_line in HO. unfold prepend_text in *.
-    destruct (gi_prepend gi) as [p|].
-    + destruct p as [|c p'].
-      * cbn. rewrite (P_empty _ PL) in HP. inversion HP. exact Hw1.
-      * cbn [nonempty andb] in HO. apply negb_false_iff in HO. apply endswith_iff in HO.
-        destruct HO as [q Hq]. rewrite Hq in *. rewrite (P_trail _ PL) in HP.
-        rewrite <- app_assoc. cbn [app]. apply (P_concat _ PL); assumption.
-    + cbn. rewrite (P_empty _ PL) in HP. inversion HP. exact Hw1.
+  pose proof (parse_join_nl _ (file_imports_wf gi)) as HI. fold (imports_text parse_src gi) in HI.
+  destruct (prepend_arg_shape _ _ HP) as [[E1 E2]|[q [E1 E2]]]; rewrite E1.
+  - subst ptops. cbn [app]. exact HI.
+  - rewrite <- app_assoc. cbn [app]. apply (P_concat _ PL); assumption.
 Qed.
 
 (* ---- the first phase of gen under the domain conditions *)
@@ -612,7 +579,8 @@ Definition phase1_ok (gi : gen_in) : Prop :=
   /\ (forall f p, gi_imports_from_file gi = Some f -> gi_prepend gi = Some p -> nonempty p = true ->
                   exists t, parse_src (strip p) = Some t).
 
-Lemma imports_phase_ok : forall gi, phase1_ok gi -> snd (imports_phase parse_src gi) = GOk (imports_text gi).
+Lemma imports_phase_ok : forall gi, phase1_ok gi ->
+    snd (imports_phase parse_src gi) = GOk (imports_text parse_src gi).
 Proof.
   intros gi [[header HH] [HE HS]]. unfold imports_phase, imports_text, file_imports.
   unfold header_of in HH.
@@ -666,7 +634,7 @@ Qed.
 
 (* ---- gen in the proved region *)
 Definition gen_conditions (gi : gen_in) (es : list entry) (names : list str) (header : list top) : Prop :=
-  two_types (gi_type gi)
+  known_type (gi_type gi) = true
   /\ has_dot (gi_input_mapping gi) = true
   /\ phase1_ok gi
   /\ header_of parse_src gi = Some header
@@ -674,12 +642,7 @@ Definition gen_conditions (gi : gen_in) (es : list entry) (names : list str) (he
   /\ names_of (gi_name_tpl gi) es = GOk names
   /\ forallb safe_name names = true
   /\ forallb (entry_wf parse_src (gi_name_tpl gi)) es = true
-  /\ forallb is_emitted es = true
-  /\ n_file_imports parse_src gi <= 1
-  /\ (1 <= n_file_imports parse_src gi -> prepend_open_line gi = false).
-
-Lemma two_types_known : forall t, two_types t -> known_type t = true.
-Proof. intros t [E|E]; subst t; reflexivity. Qed.
+  /\ forallb is_emitted es = true.
 
 Lemma gen_in_guard : forall gi es names header,
     gen_conditions gi es names header ->
@@ -692,16 +655,16 @@ Lemma gen_in_guard : forall gi es names header,
       /\ parse_src (g_written g) = Some (g_hoisted g)
       /\ Forall2 is_def_named names defs.
 Proof.
-  intros gi es names header [HT [HD [HP1 [HH [HM [HN [HS [HW [HE [HI HO]]]]]]]]]].
+  intros gi es names header [HT [HD [HP1 [HH [HM [HN [HS [HW HE]]]]]]]].
   destruct (entries_defs _ es names HW HE HN) as [defs [Hdefs [Hnamed Hplain]]].
-  pose proof (header_parses gi header HH HI HO) as HPh.
+  pose proof (header_parses gi header HH) as HPh.
   pose proof (content_parses _ header (texts_of es) defs names HPh Hdefs HS) as HC.
-  exists (mkGenOk (assemble (gi_prepend gi) (imports_text gi) (texts_of es) names)
+  exists (mkGenOk (assemble (gi_prepend gi) (imports_text parse_src gi) (texts_of es) names)
                   (hoist (header ++ defs ++ [TAll names (all_text names)])) names
                   (unparse_module (hoist (header ++ defs ++ [TAll names (all_text names)])))), defs.
-  assert (HCA : parse_src (assemble (gi_prepend gi) (imports_text gi) (texts_of es) names)
+  assert (HCA : parse_src (assemble (gi_prepend gi) (imports_text parse_src gi) (texts_of es) names)
                 = Some (header ++ defs ++ [TAll names (all_text names)])).
-  { unfold assemble. fold (prepend_text gi). rewrite app_assoc. exact HC. }
+  { unfold assemble. rewrite app_assoc. exact HC. }
   assert (Hhoist : hoist (header ++ defs ++ [TAll names (all_text names)])
                    = hoist header ++ defs ++ [TAll names (all_text names)]).
   { apply hoist_app_plain. rewrite forallb_app, Hplain. reflexivity. }
@@ -710,7 +673,7 @@ Proof.
     rewrite Forall_forall in Hall. apply Hall. eapply Permutation_in; [apply hoist_perm|exact Ht]. }
   cbn [g_all g_hoisted g_written g_content].
   split; [|split; [reflexivity|split; [exact Hhoist|split; [reflexivity|split; [exact HCA|split; [|exact Hnamed]]]]]].
-  - unfold gen. rewrite (two_types_known _ HT). cbn [negb].
+  - unfold gen. rewrite HT. cbn [negb].
     pose proof (imports_phase_ok gi HP1) as HIP.
     destruct (imports_phase parse_src gi) as [tr1 imp]. cbn [snd] in HIP. subst imp.
     rewrite HD. cbn [negb]. rewrite HM.
@@ -718,43 +681,6 @@ Proof.
     destruct (run_entries (gi_name_tpl gi) (gi_type gi) (gi_opts gi) es) as [tr2 r2]. cbn [snd] in HR. subst r2.
     rewrite HS. cbn [negb]. rewrite HCA. reflexivity.
   - apply unparse_module_parses. exact Hwf.
-Qed.
-
-(* ---- two or more import statements: the assembled text does not parse *)
-Lemma gen_glued_imports : forall gi es names header,
-    two_types (gi_type gi) -> has_dot (gi_input_mapping gi) = true -> phase1_ok gi ->
-    header_of parse_src gi = Some header -> gi_mapping gi = GOk es ->
-    names_of (gi_name_tpl gi) es = GOk names -> forallb safe_name names = true ->
-    forallb is_emitted es = true ->
-    2 <= n_file_imports parse_src gi -> prepend_open_line gi = false ->
-    snd (gen parse_src gi) = GErr xSyntaxError.
-Proof.
-  intros gi es names header HT HD HP1 HH HM HN HS HE HI HO.
-  destruct (header_of_split gi header HH) as [ptops [HP _]].
-  rewrite <- file_imports_length in HI. pose proof (file_imports_wf gi) as HW.
-  assert (HIm : forall t, In t (file_imports gi) -> is_import t = true).
-  { intros t Ht. unfold file_imports in Ht.
-    destruct (gi_imports_from_file gi) as [[f|k]|]; try contradiction.
-    destruct (parse_src f); [|contradiction]. apply filter_In in Ht. apply Ht. }
-  assert (HG : forall rest, parse_src (prepend_text gi ++ imports_text gi ++ rest) = None).
-  { intros rest. unfold imports_text.
-    destruct (file_imports gi) as [|a [|b more]]; [cbn in HI; lia|cbn in HI; lia|].
-    inversion HW as [|x l [Hwa _] HW2]; subst. inversion HW2 as [|x l [Hwb _] _]; subst.
-    pose proof (HIm a (or_introl eq_refl)) as Ia. pose proof (HIm b (or_intror (or_introl eq_refl))) as Ib.
-    destruct a as [? ? ?|ma sa|? ? ?|? ?|?]; try discriminate Ia.
-    destruct b as [? ? ?|mb sb|? ? ?|? ?|?]; try discriminate Ib.
-    cbn [map concat top_text] in *. rewrite <- !app_assoc.
-    apply (P_glue _ PL (prepend_text gi) ptops ma mb sa sb); try assumption.
-    unfold prepend_open_line in HO. unfold prepend_text. destruct (gi_prepend gi) as [p|]; [|left; reflexivity].
-    destruct p as [|c p']; [left; reflexivity|]. right.
-    cbn [nonempty andb] in HO. apply negb_false_iff in HO. apply endswith_iff in HO. exact HO. }
-  unfold gen. rewrite (two_types_known _ HT). cbn [negb].
-  pose proof (imports_phase_ok gi HP1) as HIP.
-  destruct (imports_phase parse_src gi) as [tr1 imp]. cbn [snd] in HIP. subst imp.
-  rewrite HD. cbn [negb]. rewrite HM.
-  pose proof (run_entries_ok (gi_name_tpl gi) (gi_type gi) (gi_opts gi) es names HT HE HN) as HR.
-  destruct (run_entries (gi_name_tpl gi) (gi_type gi) (gi_opts gi) es) as [tr2 r2]. cbn [snd] in HR. subst r2.
-  rewrite HS. cbn [negb]. unfold assemble. fold (prepend_text gi). rewrite HG. reflexivity.
 Qed.
 
 End Python.
@@ -861,22 +787,10 @@ Proof.
   destruct (ci_existing x) as [old|] eqn:EX.
   - destruct (ci_via x) eqn:EV; [discriminate GC|].
     apply (run_c19_cli_existing ps x old EV EX).
-  - cbn [is_some orb] in GE. unfold entries_of in GE, GC. rewrite HM in GE, GC.
-    destruct (str_eqb (gi_type (ci_gen x)) (L "function")) eqn:EF; [discriminate GC|].
-    rewrite GE in GC. cbn [negb] in GC.
-    destruct (Nat.leb 2 (n_file_imports ps (ci_gen x))) eqn:E2; [discriminate GC|].
-    apply Nat.leb_gt in E2.
-    assert (HO : 1 <= n_file_imports ps (ci_gen x) -> prepend_open_line (ci_gen x) = false).
-    { intros H1. apply Nat.leb_le in H1. rewrite H1 in GC. cbn [andb] in GC.
-      destruct (prepend_open_line (ci_gen x)); [discriminate GC|reflexivity]. }
-    assert (HT : two_types (gi_type (ci_gen x))).
-    { destruct (known_type_cases _ HK) as [E|[E|E]]; [left; exact E| |right; exact E].
-      rewrite E in EF. discriminate EF. }
+  - cbn [is_some orb] in GE. unfold entries_of in GE. rewrite HM in GE.
     assert (HC : gen_conditions ps (ci_gen x) es names header).
-    { unfold gen_conditions. repeat split; try assumption; try lia.
-      exists header. exact HH. }
+    { unfold gen_conditions. repeat split; try assumption. exists header. exact HH. }
     assert (Main : forall gi', gen_conditions ps gi' es names header ->
-                   header_of ps gi' = header_of ps (ci_gen x) ->
                    fst (run_c19 ps x) = snd (gen ps gi') -> snd (run_c19 ps x) = file_after None (snd (gen ps gi')) ->
                    exists g es0 names0 header0 hdr defs,
                      fst (run_c19 ps x) = GOk g /\ snd (run_c19 ps x) = Some (g_written g)
@@ -885,7 +799,7 @@ Proof.
                      /\ header_of ps (ci_gen x) = Some header0 /\ Permutation hdr header0
                      /\ ps (g_written g) = Some (hdr ++ defs ++ [TAll names0 (all_text names0)])
                      /\ Forall2 is_def_named names0 defs).
-    { intros gi' HC' _ Hf Hs.
+    { intros gi' HC' Hf Hs.
       destruct (gen_in_guard ps PL gi' es names header HC') as [g [defs [Hg [Ha [Hh [Hw [_ [Hp Hn]]]]]]]].
       exists g, es, names, header, (hoist header), defs.
       rewrite Hf, Hs, Hg. cbn [file_after app].
@@ -893,9 +807,9 @@ Proof.
       - apply hoist_perm.
       - rewrite Hp. rewrite Hh. reflexivity. }
     destruct (ci_via x) eqn:EV.
-    + apply (Main (ci_gen x) HC eq_refl); unfold run_c19; rewrite EV, EX; reflexivity.
+    + apply (Main (ci_gen x) HC); unfold run_c19; rewrite EV, EX; reflexivity.
     + destruct (cli_of_run x EV HK HPC) as [c [o [Hc Hgi]]].
-      apply (Main (with_opts (ci_gen x) o) (gen_conditions_opts _ _ _ _ _ _ HC) (header_of_opts _ _ _));
+      apply (Main (with_opts (ci_gen x) o) (gen_conditions_opts _ _ _ _ _ _ HC));
         unfold run_c19; rewrite EV, EX; cbn [is_some]; rewrite Hc, Hgi; reflexivity.
 Qed.
 
@@ -906,19 +820,22 @@ Proof.
   intros ps x old HV HE. unfold C19_at. rewrite HE. apply (run_c19_cli_existing ps x old HV HE).
 Qed.
 
-(* without an imports file, with prepend text absent or ending in a newline, types class and
-   argparse: every mapping whose entries all convert satisfies C19, whatever its length *)
-Theorem C19_no_imports_lemma : forall ps, python_like ps -> forall x,
+(* a fresh output, every entry converts: C19 holds, for each of the three types, whatever the
+   number of entries, whatever the imports file holds and whether or not prepend ends in a newline *)
+Theorem C19_all_entries_convert_lemma : forall ps, python_like ps -> forall x,
     C19_domain ps x = true -> ci_existing x = None ->
-    gi_type (ci_gen x) <> L "function" -> gi_imports_from_file (ci_gen x) = None ->
     forallb is_emitted (entries_of (ci_gen x)) = true ->
     C19_at ps x.
 Proof.
-  intros ps PL x HD HE HT HI HEm. apply (C19_partial_lemma ps PL). unfold guard_C19.
-  rewrite HD, HEm, orb_true_r. cbn [andb]. unfold finding_class_C19. rewrite HE.
-  destruct (str_eqb (gi_type (ci_gen x)) (L "function")) eqn:EF; [apply str_eqb_eq in EF; contradiction|].
-  rewrite HEm. cbn [negb]. unfold n_file_imports. rewrite HI. reflexivity.
+  intros ps PL x HD HE HEm. apply (C19_partial_lemma ps PL). unfold guard_C19.
+  rewrite HD, HEm, orb_true_r. cbn [andb]. unfold finding_class_C19. rewrite HE, HEm. reflexivity.
 Qed.
+
+(* the header of the assembled text, for any number of import statements *)
+Theorem C19_header_parses_lemma : forall ps, python_like ps -> forall gi header,
+    header_of ps gi = Some header ->
+    ps (prepend_arg (gi_prepend gi) ++ imports_text ps gi) = Some header.
+Proof. exact header_parses. Qed.
 
 (* the names for templates  literal {name} literal *)
 Lemma names_of_simple_template : forall pre post es,
@@ -932,16 +849,14 @@ Qed.
 (* ================================================================== C19: what is false of the code *)
 Lemma run_c19_gen_err : forall ps x,
     ci_existing x = None ->
-    (forall gi', gi_type gi' = gi_type (ci_gen x) -> gi_mapping gi' = gi_mapping (ci_gen x) ->
-                 exists k, snd (gen ps gi') = GErr k) ->
+    (forall gi', gi_mapping gi' = gi_mapping (ci_gen x) -> exists k, snd (gen ps gi') = GErr k) ->
     exists k, fst (run_c19 ps x) = GErr k.
 Proof.
   intros ps x HE HG. unfold run_c19. destruct (ci_via x).
   - cbn [fst]. apply HG; reflexivity.
   - rewrite HE. cbn [is_some].
     destruct (cli_gen (cli_of x) false) as [| k | c |] eqn:EC; cbn [fst]; try (eexists; reflexivity).
-    destruct (cli_gen_run _ _ EC) as [_ [_ [HT _]]]. unfold cli_of in HT. cbn in HT. inversion HT as [HT'].
-    apply HG; unfold gen_in_of_call; cbn; [symmetry; exact HT'|reflexivity].
+    apply HG; unfold gen_in_of_call; reflexivity.
 Qed.
 
 Lemma not_at_of_err : forall ps x, ci_existing x = None ->
@@ -951,22 +866,12 @@ Proof.
   destruct H as [g [es [names [header [hdr [defs [Hg _]]]]]]]. rewrite Hk in Hg. discriminate Hg.
 Qed.
 
-(* type_ = function never works, on either route, whatever the mapping (as long as it has an entry) *)
-Theorem C19_fails_function_type_lemma : forall ps x,
-    gi_type (ci_gen x) = L "function" -> ci_existing x = None ->
-    (forall es, gi_mapping (ci_gen x) = GOk es -> es <> []) -> ~ C19_at ps x.
-Proof.
-  intros ps x HT HE HM. apply (not_at_of_err ps x HE). apply (run_c19_gen_err ps x HE).
-  intros gi' Ht Hm. apply gen_fails_function; [rewrite Ht; exact HT|]. intros es Hes. apply HM.
-  rewrite <- Hm. exact Hes.
-Qed.
-
 (* an entry whose conversion raises (annotated or undocumented callables, ...) ends the whole run *)
 Theorem C19_fails_entry_lemma : forall ps x es,
     gi_mapping (ci_gen x) = GOk es -> forallb is_emitted es = false -> ci_existing x = None -> ~ C19_at ps x.
 Proof.
   intros ps x es HM HEm HE. apply (not_at_of_err ps x HE). apply (run_c19_gen_err ps x HE).
-  intros gi' _ Hm. apply (gen_fails_entry ps gi' es); [rewrite Hm; exact HM|exact HEm].
+  intros gi' Hm. apply (gen_fails_entry ps gi' es); [rewrite Hm; exact HM|exact HEm].
 Qed.
 
 (* gen() called directly appends to an existing output file whenever it succeeds *)
@@ -980,35 +885,14 @@ Proof.
     unfold run_c19 in Hk. rewrite HV in Hk. cbn [fst] in Hk. rewrite HG in Hk. discriminate Hk.
 Qed.
 
-(* two or more import statements in the imports file: SyntaxError, in the domain, for every
-   Python-like parser, any number of entries *)
-Theorem C19_fails_glued_imports_lemma : forall ps, python_like ps -> forall x,
-    C19_domain ps x = true -> ci_via x = ViaApi -> ci_existing x = None ->
-    gi_type (ci_gen x) <> L "function" ->
-    forallb is_emitted (entries_of (ci_gen x)) = true ->
-    2 <= n_file_imports ps (ci_gen x) -> prepend_open_line (ci_gen x) = false ->
-    snd (gen ps (ci_gen x)) = GErr xSyntaxError /\ ~ C19_at ps x.
-Proof.
-  intros ps PL x HD HV HE HT HEm H2 HO.
-  destruct (domain_parts ps x HD) as [HK [HDot [HPC [[header HH] [HEv [HS [es [names [HM [HN [HSafe HW]]]]]]]]]]].
-  unfold entries_of in HEm. rewrite HM in HEm.
-  assert (HTT : two_types (gi_type (ci_gen x))).
-  { destruct (known_type_cases _ HK) as [E|[E|E]]; [left; exact E|contradiction|right; exact E]. }
-  assert (HG : snd (gen ps (ci_gen x)) = GErr xSyntaxError).
-  { apply (gen_glued_imports ps PL (ci_gen x) es names header); try assumption.
-    unfold phase1_ok. repeat split; try assumption. exists header. exact HH. }
-  split; [exact HG|]. apply (not_at_of_err ps x HE). exists xSyntaxError.
-  unfold run_c19. rewrite HV. cbn [fst]. exact HG.
-Qed.
-
 (* witnesses *)
 Definition opts0 : gen_opts := mkOpts false true None.
-Definition feat0 : entry_feat := mkFeat false true 1 true false false.
+Definition feat0 : entry_feat := mkFeat true false 1 1 false false false.
 
-(* one class entry, type_ function *)
-Definition w_function : c19_in :=
-  mkC19 ViaApi (mkGenIn (L "{name}Config") (L "m.M") (GOk [mkEntry (L "A") false Parsed]) (L "function")
-                        None None None opts0) None [feat0] None.
+(* one undocumented function: parse.function raises KeyError *)
+Definition w_entry : c19_in :=
+  mkC19 ViaApi (mkGenIn (L "{name}Config") (L "m.M") (GOk [mkEntry (L "f") true (ParseRaises xKeyError)])
+                        (L "class") None None None opts0) None [feat0] None.
 
 (* empty mapping written over an existing file through the API *)
 Definition w_append : c19_in :=
@@ -1017,8 +901,8 @@ Definition w_append : c19_in :=
 
 Theorem C19_refuted_lemma : forall ps, python_like ps -> ~ C19_statement ps.
 Proof.
-  intros ps _ H. specialize (H w_function eq_refl). revert H.
-  apply C19_fails_function_type_lemma; try reflexivity. intros es E. inversion E. discriminate.
+  intros ps _ H. specialize (H w_entry eq_refl). revert H.
+  apply (C19_fails_entry_lemma ps w_entry [mkEntry (L "f") true (ParseRaises xKeyError)]); reflexivity.
 Qed.
 
 Theorem C19_refuted_api_append_lemma : forall ps, python_like ps ->
@@ -1028,8 +912,7 @@ Theorem C19_refuted_api_append_lemma : forall ps, python_like ps ->
 Proof.
   intros ps PL. split; [reflexivity|].
   assert (HC : gen_conditions ps (ci_gen w_append) [] [] []).
-  { unfold gen_conditions, phase1_ok. cbn. repeat split; try reflexivity; try lia.
-    - left; reflexivity.
+  { unfold gen_conditions, phase1_ok. cbn. repeat split; try reflexivity.
     - exists []. reflexivity.
     - intros f p Hf. discriminate Hf. }
   destruct (gen_in_guard ps PL _ _ _ _ HC) as [g [defs [Hg [_ [Hh [Hw [_ [_ Hn]]]]]]]].
@@ -1037,6 +920,7 @@ Proof.
   destruct (C19_api_appends_lemma ps w_append (L "OLD = 1") g eq_refl eq_refl Hg) as [Hs Hn'].
   split; [|exact Hn']. rewrite Hs, Hw, Hh. reflexivity.
 Qed.
+
 
 (* ================================================================== witnesses taken from real runs *)
 (* Generated from the recorded inputs of the real runs of harness/prop_C19.py:witnesses (the module name
@@ -1075,7 +959,7 @@ Definition w_api_appends : c19_in :=
 
     :cvar x: the x. Defaults to 5""""""
     x: int = 5")))]) (L "class") None None None (mkOpts false true None))
-    None [(mkFeat false true 1 true false false)] (Some (L "OLD = 1
+    None [(mkFeat false true 1 0 true false false)] (Some (L "OLD = 1
 ")).
 
 Example w_api_appends_fails :
@@ -1091,193 +975,13 @@ class AConfig(object):
 __all__ = ['AConfig']").
 Proof. vm_compute. repeat split; reflexivity. Qed.
 
-Definition w_function_type_tab : parse_table :=
-  [].
-
-Definition w_function_type : c19_in :=
-  mkC19 ViaApi
-    (mkGenIn (L "{name}Config") (L "m.M") (GOk [(mkEntry (L "A") false Parsed)]) (L "function") None None None (mkOpts false true None))
-    None [(mkFeat false true 1 true false false)] None.
-
-Example w_function_type_fails :
-  C19_domain (table_parse w_function_type_tab) w_function_type = true
-  /\ finding_class_C19 (table_parse w_function_type_tab) w_function_type = Some K_function_type
-  /\ fst (run_c19 (table_parse w_function_type_tab) w_function_type) = GErr (L "TypeError").
-Proof. vm_compute. repeat split; reflexivity. Qed.
-
-Definition w_imports_glued_tab : parse_table :=
-  [((L "import os
-import sys
-
-class A(object):
-    """"""
-    The A class.
-    """"""
-
-    def __init__(self, x=5):
-        """"""
-        Do the A thing.
-
-        :param x: the x
-        :type x: ```int```
-        """"""
-        self.x = x
-
-M = {'A': A}
-"), (Some [(TImport None (L "import os")); (TImport None (L "import sys")); (TDef true (L "A") (L "class A(object):
-    """"""
-    The A class.
-    """"""
-
-    def __init__(self, x=5):
-        """"""
-        Do the A thing.
-
-        :param x: the x
-        :type x: ```int```
-        """"""
-        self.x = x")); (TOther (L "M = {'A': A}"))])); ((L "['AConfig']"), (Some [(TOther (L "['AConfig']"))])); ((L "import osimport sys
-class AConfig(object):
-    """"""
-    The A class.
-
-    :cvar x: the x. Defaults to 5""""""
-    x: int = 5
-__all__ = ['AConfig']"), None); ((L "class AConfig(object):
-    """"""
-    The A class.
-
-    :cvar x: the x. Defaults to 5""""""
-    x: int = 5"), (Some [(TDef true (L "AConfig") (L "class AConfig(object):
-    """"""
-    The A class.
-
-    :cvar x: the x. Defaults to 5""""""
-    x: int = 5"))]))].
-
-Definition w_imports_glued : c19_in :=
-  mkC19 ViaApi
-    (mkGenIn (L "{name}Config") (L "m.M") (GOk [(mkEntry (L "A") false (Emitted (L "class AConfig(object):
-    """"""
-    The A class.
-
-    :cvar x: the x. Defaults to 5""""""
-    x: int = 5")))]) (L "class") None (Some (GOk (L "import os
-import sys
-
-class A(object):
-    """"""
-    The A class.
-    """"""
-
-    def __init__(self, x=5):
-        """"""
-        Do the A thing.
-
-        :param x: the x
-        :type x: ```int```
-        """"""
-        self.x = x
-
-M = {'A': A}
-"))) None (mkOpts false true None))
-    None [(mkFeat false true 1 true false false)] None.
-
-Example w_imports_glued_fails :
-  C19_domain (table_parse w_imports_glued_tab) w_imports_glued = true
-  /\ finding_class_C19 (table_parse w_imports_glued_tab) w_imports_glued = Some K_imports_glued
-  /\ fst (run_c19 (table_parse w_imports_glued_tab) w_imports_glued) = GErr (L "SyntaxError").
-Proof. vm_compute. repeat split; reflexivity. Qed.
-
-Definition w_prepend_glued_tab : parse_table :=
-  [((L "import os
-
-class A(object):
-    """"""
-    The A class.
-    """"""
-
-    def __init__(self, x=5):
-        """"""
-        Do the A thing.
-
-        :param x: the x
-        :type x: ```int```
-        """"""
-        self.x = x
-
-M = {'A': A}
-"), (Some [(TImport None (L "import os")); (TDef true (L "A") (L "class A(object):
-    """"""
-    The A class.
-    """"""
-
-    def __init__(self, x=5):
-        """"""
-        Do the A thing.
-
-        :param x: the x
-        :type x: ```int```
-        """"""
-        self.x = x")); (TOther (L "M = {'A': A}"))])); ((L "PI = 3"), (Some [(TOther (L "PI = 3"))])); ((L "['AConfig']"), (Some [(TOther (L "['AConfig']"))])); ((L "PI = 3import os
-class AConfig(object):
-    """"""
-    The A class.
-
-    :cvar x: the x. Defaults to 5""""""
-    x: int = 5
-__all__ = ['AConfig']"), None); ((L "class AConfig(object):
-    """"""
-    The A class.
-
-    :cvar x: the x. Defaults to 5""""""
-    x: int = 5"), (Some [(TDef true (L "AConfig") (L "class AConfig(object):
-    """"""
-    The A class.
-
-    :cvar x: the x. Defaults to 5""""""
-    x: int = 5"))]))].
-
-Definition w_prepend_glued : c19_in :=
-  mkC19 ViaApi
-    (mkGenIn (L "{name}Config") (L "m.M") (GOk [(mkEntry (L "A") false (Emitted (L "class AConfig(object):
-    """"""
-    The A class.
-
-    :cvar x: the x. Defaults to 5""""""
-    x: int = 5")))]) (L "class") (Some (L "PI = 3")) (Some (GOk (L "import os
-
-class A(object):
-    """"""
-    The A class.
-    """"""
-
-    def __init__(self, x=5):
-        """"""
-        Do the A thing.
-
-        :param x: the x
-        :type x: ```int```
-        """"""
-        self.x = x
-
-M = {'A': A}
-"))) None (mkOpts false true None))
-    None [(mkFeat false true 1 true false false)] None.
-
-Example w_prepend_glued_fails :
-  C19_domain (table_parse w_prepend_glued_tab) w_prepend_glued = true
-  /\ finding_class_C19 (table_parse w_prepend_glued_tab) w_prepend_glued = Some K_prepend_glued
-  /\ fst (run_c19 (table_parse w_prepend_glued_tab) w_prepend_glued) = GErr (L "SyntaxError").
-Proof. vm_compute. repeat split; reflexivity. Qed.
-
 Definition w_undocumented_tab : parse_table :=
   [].
 
 Definition w_undocumented : c19_in :=
   mkC19 ViaApi
     (mkGenIn (L "{name}Config") (L "m.M") (GOk [(mkEntry (L "f") true (ParseRaises (L "KeyError")))]) (L "class") None None None (mkOpts false true None))
-    None [(mkFeat true false 1 false false false)] None.
+    None [(mkFeat true false 1 1 false false false)] None.
 
 Example w_undocumented_fails :
   C19_domain (table_parse w_undocumented_tab) w_undocumented = true
@@ -1291,7 +995,7 @@ Definition w_no_params_tab : parse_table :=
 Definition w_no_params : c19_in :=
   mkC19 ViaApi
     (mkGenIn (L "{name}Config") (L "m.M") (GOk [(mkEntry (L "f") true (ParseRaises (L "StopIteration")))]) (L "class") None None None (mkOpts false true None))
-    None [(mkFeat true true 0 false false false)] None.
+    None [(mkFeat true true 0 0 false false false)] None.
 
 Example w_no_params_fails :
   C19_domain (table_parse w_no_params_tab) w_no_params = true
@@ -1305,12 +1009,26 @@ Definition w_returns_argparse_tab : parse_table :=
 Definition w_returns_argparse : c19_in :=
   mkC19 ViaApi
     (mkGenIn (L "{name}Config") (L "m.M") (GOk [(mkEntry (L "f") true (EmitRaises (L "TypeError")))]) (L "argparse") None None None (mkOpts false true None))
-    None [(mkFeat true true 1 true false true)] None.
+    None [(mkFeat true true 1 1 true false true)] None.
 
 Example w_returns_argparse_fails :
   C19_domain (table_parse w_returns_argparse_tab) w_returns_argparse = true
   /\ finding_class_C19 (table_parse w_returns_argparse_tab) w_returns_argparse = Some K_entry_returns_argparse
   /\ fst (run_c19 (table_parse w_returns_argparse_tab) w_returns_argparse) = GErr (L "TypeError").
+Proof. vm_compute. repeat split; reflexivity. Qed.
+
+Definition w_returns_function_tab : parse_table :=
+  [].
+
+Definition w_returns_function : c19_in :=
+  mkC19 ViaApi
+    (mkGenIn (L "{name}Config") (L "m.M") (GOk [(mkEntry (L "f") true (EmitRaises (L "AttributeError")))]) (L "function") None None None (mkOpts false true None))
+    None [(mkFeat true true 1 1 true false true)] None.
+
+Example w_returns_function_fails :
+  C19_domain (table_parse w_returns_function_tab) w_returns_function = true
+  /\ finding_class_C19 (table_parse w_returns_function_tab) w_returns_function = Some K_entry_returns_function
+  /\ fst (run_c19 (table_parse w_returns_function_tab) w_returns_function) = GErr (L "AttributeError").
 Proof. vm_compute. repeat split; reflexivity. Qed.
 
 Definition w_annotated_tab : parse_table :=
@@ -1319,7 +1037,7 @@ Definition w_annotated_tab : parse_table :=
 Definition w_annotated : c19_in :=
   mkC19 ViaApi
     (mkGenIn (L "{name}Config") (L "m.M") (GOk [(mkEntry (L "f") true (EmitRaises (L "SyntaxError")))]) (L "class") None None None (mkOpts false true None))
-    None [(mkFeat true true 1 true true false)] None.
+    None [(mkFeat true true 1 1 true true false)] None.
 
 Example w_annotated_fails :
   C19_domain (table_parse w_annotated_tab) w_annotated = true
@@ -1327,8 +1045,23 @@ Example w_annotated_fails :
   /\ fst (run_c19 (table_parse w_annotated_tab) w_annotated) = GErr (L "SyntaxError").
 Proof. vm_compute. repeat split; reflexivity. Qed.
 
+Definition w_untyped_param_tab : parse_table :=
+  [].
+
+Definition w_untyped_param : c19_in :=
+  mkC19 ViaApi
+    (mkGenIn (L "{name}Config") (L "m.M") (GOk [(mkEntry (L "f") true (EmitRaises (L "TypeError")))]) (L "function") None None None (mkOpts false true None))
+    None [(mkFeat true true 1 1 false false false)] None.
+
+Example w_untyped_param_fails :
+  C19_domain (table_parse w_untyped_param_tab) w_untyped_param = true
+  /\ finding_class_C19 (table_parse w_untyped_param_tab) w_untyped_param = Some K_entry_untyped_param
+  /\ fst (run_c19 (table_parse w_untyped_param_tab) w_untyped_param) = GErr (L "TypeError").
+Proof. vm_compute. repeat split; reflexivity. Qed.
+
 Definition w_in_guard_tab : parse_table :=
   [((L "import os
+import sys
 
 class A(object):
     """"""
@@ -1358,7 +1091,7 @@ def f(a, b=2):
     pass
 
 M = {'A': A, 'f': f}
-"), (Some [(TImport None (L "import os")); (TDef true (L "A") (L "class A(object):
+"), (Some [(TImport None (L "import os")); (TImport None (L "import sys")); (TDef true (L "A") (L "class A(object):
     """"""
     The A class.
     """"""
@@ -1384,6 +1117,7 @@ M = {'A': A, 'f': f}
 X = 1"), (Some [(TStr true (L "'Generated.'") (L """""""Generated.""""""")); (TOther (L "X = 1"))])); ((L "['AConfig', 'fConfig']"), (Some [(TOther (L "['AConfig', 'fConfig']"))])); ((L """""""Generated.""""""
 X = 1
 import os
+import sys
 class AConfig(object):
     """"""
     The A class.
@@ -1399,7 +1133,7 @@ class fConfig(object):
     :cvar b: the b. Defaults to 2""""""
     a: int = 0
     b: int = 2
-__all__ = ['AConfig', 'fConfig']"), (Some [(TStr true (L "'Generated.'") (L """""""Generated.""""""")); (TOther (L "X = 1")); (TImport None (L "import os")); (TDef true (L "AConfig") (L "class AConfig(object):
+__all__ = ['AConfig', 'fConfig']"), (Some [(TStr true (L "'Generated.'") (L """""""Generated.""""""")); (TOther (L "X = 1")); (TImport None (L "import os")); (TImport None (L "import sys")); (TDef true (L "AConfig") (L "class AConfig(object):
     """"""
     The A class.
 
@@ -1411,9 +1145,7 @@ __all__ = ['AConfig', 'fConfig']"), (Some [(TStr true (L "'Generated.'") (L """"
     :cvar a: the a
     :cvar b: the b. Defaults to 2""""""
     a: int = 0
-    b: int = 2")); (TAll [(L "AConfig"); (L "fConfig")] (L "__all__ = ['AConfig', 'fConfig']"))])); ((L """""""Generated.""""""
-X = 1
-"), (Some [(TStr true (L "'Generated.'") (L """""""Generated.""""""")); (TOther (L "X = 1"))])); ((L "class AConfig(object):
+    b: int = 2")); (TAll [(L "AConfig"); (L "fConfig")] (L "__all__ = ['AConfig', 'fConfig']"))])); ((L "class AConfig(object):
     """"""
     The A class.
 
@@ -1454,8 +1186,8 @@ Definition w_in_guard : c19_in :=
     :cvar b: the b. Defaults to 2""""""
     a: int = 0
     b: int = 2")))]) (L "class") (Some (L """""""Generated.""""""
-X = 1
-")) (Some (GOk (L "import os
+X = 1")) (Some (GOk (L "import os
+import sys
 
 class A(object):
     """"""
@@ -1486,12 +1218,13 @@ def f(a, b=2):
 
 M = {'A': A, 'f': f}
 "))) None (mkOpts false true None))
-    None [(mkFeat false true 1 true false false); (mkFeat true true 2 true false false)] None.
+    None [(mkFeat false true 1 0 true false false); (mkFeat true true 2 1 true false false)] None.
 
 Example w_in_guard_in_guard :
   guard_C19 (table_parse w_in_guard_tab) w_in_guard = true
   /\ snd (run_c19 (table_parse w_in_guard_tab) w_in_guard) = Some (L """""""Generated.""""""
 import os
+import sys
 X = 1
 
 class AConfig(object):
@@ -1512,10 +1245,204 @@ class fConfig(object):
 __all__ = ['AConfig', 'fConfig']").
 Proof. vm_compute. split; reflexivity. Qed.
 
+Definition w_in_guard_function_tab : parse_table :=
+  [((L "import os
+import sys
+
+class A(object):
+    """"""
+    The A class.
+    """"""
+
+    def __init__(self, x=5):
+        """"""
+        Do the A thing.
+
+        :param x: the x
+        :type x: ```int```
+        """"""
+        self.x = x
+
+
+def f(a, b=2):
+    """"""
+    Do the f thing.
+
+    :param a: the a
+    :type a: ```int```
+
+    :param b: the b
+    :type b: ```int```
+    """"""
+    pass
+
+M = {'A': A, 'f': f}
+"), (Some [(TImport None (L "import os")); (TImport None (L "import sys")); (TDef true (L "A") (L "class A(object):
+    """"""
+    The A class.
+    """"""
+
+    def __init__(self, x=5):
+        """"""
+        Do the A thing.
+
+        :param x: the x
+        :type x: ```int```
+        """"""
+        self.x = x")); (TDef false (L "f") (L "def f(a, b=2):
+    """"""
+    Do the f thing.
+
+    :param a: the a
+    :type a: ```int```
+
+    :param b: the b
+    :type b: ```int```
+    """"""
+    pass")); (TOther (L "M = {'A': A, 'f': f}"))])); ((L "PI = 3"), (Some [(TOther (L "PI = 3"))])); ((L "['AConfig', 'fConfig']"), (Some [(TOther (L "['AConfig', 'fConfig']"))])); ((L "PI = 3
+import os
+import sys
+def AConfig(*, x: int=5):
+    """"""
+The A class.
+
+:param x: the x. Defaults to 5
+        
+""""""
+
+def fConfig(*, a: int=None, b: int=2):
+    """"""
+Do the f thing.
+
+:param a: the a
+        
+:param b: the b. Defaults to 2
+        
+""""""
+__all__ = ['AConfig', 'fConfig']"), (Some [(TOther (L "PI = 3")); (TImport None (L "import os")); (TImport None (L "import sys")); (TDef false (L "AConfig") (L "def AConfig(*, x: int=5):
+    """"""
+The A class.
+
+:param x: the x. Defaults to 5
+        
+""""""")); (TDef false (L "fConfig") (L "def fConfig(*, a: int=None, b: int=2):
+    """"""
+Do the f thing.
+
+:param a: the a
+        
+:param b: the b. Defaults to 2
+        
+""""""")); (TAll [(L "AConfig"); (L "fConfig")] (L "__all__ = ['AConfig', 'fConfig']"))])); ((L "def AConfig(*, x: int=5):
+    """"""
+The A class.
+
+:param x: the x. Defaults to 5
+        
+"""""""), (Some [(TDef false (L "AConfig") (L "def AConfig(*, x: int=5):
+    """"""
+The A class.
+
+:param x: the x. Defaults to 5
+        
+"""""""))])); ((L "def fConfig(*, a: int=None, b: int=2):
+    """"""
+Do the f thing.
+
+:param a: the a
+        
+:param b: the b. Defaults to 2
+        
+"""""""), (Some [(TDef false (L "fConfig") (L "def fConfig(*, a: int=None, b: int=2):
+    """"""
+Do the f thing.
+
+:param a: the a
+        
+:param b: the b. Defaults to 2
+        
+"""""""))]))].
+
+Definition w_in_guard_function : c19_in :=
+  mkC19 ViaApi
+    (mkGenIn (L "{name}Config") (L "m.M") (GOk [(mkEntry (L "A") false (Emitted (L "def AConfig(*, x: int=5):
+    """"""
+The A class.
+
+:param x: the x. Defaults to 5
+        
+"""""""))); (mkEntry (L "f") true (Emitted (L "def fConfig(*, a: int=None, b: int=2):
+    """"""
+Do the f thing.
+
+:param a: the a
+        
+:param b: the b. Defaults to 2
+        
+""""""")))]) (L "function") (Some (L "PI = 3")) (Some (GOk (L "import os
+import sys
+
+class A(object):
+    """"""
+    The A class.
+    """"""
+
+    def __init__(self, x=5):
+        """"""
+        Do the A thing.
+
+        :param x: the x
+        :type x: ```int```
+        """"""
+        self.x = x
+
+
+def f(a, b=2):
+    """"""
+    Do the f thing.
+
+    :param a: the a
+    :type a: ```int```
+
+    :param b: the b
+    :type b: ```int```
+    """"""
+    pass
+
+M = {'A': A, 'f': f}
+"))) None (mkOpts false true None))
+    None [(mkFeat false true 1 0 true false false); (mkFeat true true 2 1 true false false)] None.
+
+Example w_in_guard_function_in_guard :
+  guard_C19 (table_parse w_in_guard_function_tab) w_in_guard_function = true
+  /\ snd (run_c19 (table_parse w_in_guard_function_tab) w_in_guard_function) = Some (L "import os
+import sys
+PI = 3
+
+def AConfig(*, x: int=5):
+    """"""
+The A class.
+
+:param x: the x. Defaults to 5
+        
+""""""
+
+def fConfig(*, a: int=None, b: int=2):
+    """"""
+Do the f thing.
+
+:param a: the a
+        
+:param b: the b. Defaults to 2
+        
+""""""
+__all__ = ['AConfig', 'fConfig']").
+Proof. vm_compute. split; reflexivity. Qed.
+
+
 (* ================================================================== python_like is satisfiable *)
 (* A small line-based parser that has every property listed in python_like, so the hypotheses
-   of the theorems above are consistent (and P_glue is not satisfied vacuously: the parser does
-   produce import statements).  It accepts blank lines, lines  import <word>  and lines starting
+   of the theorems above are consistent.  It accepts blank lines, lines  import <word>  and lines starting
    with  __all__ = [ ; everything else is a syntax error. *)
 Fixpoint lines_aux (s cur : str) : list str :=
   match s with
@@ -1649,61 +1576,6 @@ Proof.
     apply Forall_app. split; [apply (toy_line_wf l a Hl Ea)|apply (IH b Hr eq_refl)].
 Qed.
 
-Lemma toy_lines_In : forall ls tops t, toy_lines ls = Some tops -> In t tops ->
-    exists l a, In l ls /\ toy_line l = Some a /\ In t a.
-Proof.
-  induction ls as [|l r IH]; intros tops t H Ht.
-  - inversion H. subst tops. contradiction.
-  - cbn [toy_lines] in H. destruct (toy_line l) as [a|] eqn:Ea; [|discriminate H].
-    destruct (toy_lines r) as [b|] eqn:Eb; [|discriminate H]. inversion H. subst tops.
-    apply in_app_or in Ht. destruct Ht as [Ht|Ht].
-    + exists l, a. split; [left; reflexivity|split; [exact Ea|exact Ht]].
-    + destruct (IH b t eq_refl Ht) as [l' [a' [Hl [Ha Hi]]]]. exists l', a'. split; [right; exact Hl|split; assumption].
-Qed.
-
-(* a text that parses to one import statement whose text is the whole text is one import line *)
-Lemma toy_import_shape : forall ma a, toy_parse a = Some [TImport ma a] ->
-    no_nl a = true /\ exists w, a = L "import " ++ w /\ no_space w = true.
-Proof.
-  intros ma a H. unfold toy_parse in H.
-  destruct (toy_lines_In (lines a) _ (TImport ma a) H (or_introl eq_refl)) as [l [tops [Hl [Ht Hi]]]].
-  assert (Hnl : no_nl l = true).
-  { pose proof (lines_aux_elems a [] eq_refl) as HF. rewrite Forall_forall in HF. apply HF. exact Hl. }
-  unfold toy_line in Ht. destruct l as [|c r]; [inversion Ht; subst tops; contradiction|].
-  destruct (startswith (L "import ") (c :: r)) eqn:ES.
-  - destruct (no_space (skipn 7 (c :: r))) eqn:EN; [|discriminate Ht]. inversion Ht. subst tops.
-    destruct Hi as [Hi|[]]. inversion Hi. subst a. split; [exact Hnl|].
-    apply startswith_iff in ES. destruct ES as [w Hw]. exists w. split; [exact Hw|].
-    rewrite Hw in EN. exact EN.
-  - destruct (startswith (L "__all__ = [") (c :: r)); [|discriminate Ht]. inversion Ht. subst tops.
-    destruct Hi as [Hi|[]]. discriminate Hi.
-Qed.
-
-Lemma no_space_app : forall a b, no_space (a ++ b) = no_space a && no_space b.
-Proof. intros a b. unfold no_space. apply forallb_app. Qed.
-
-Lemma toy_glue : forall pre tp ma mb a b rest,
-    toy_parse pre = Some tp -> (pre = [] \/ exists p, pre = p ++ [nl]) ->
-    toy_parse a = Some [TImport ma a] -> toy_parse b = Some [TImport mb b] ->
-    toy_parse (pre ++ a ++ b ++ rest) = None.
-Proof.
-  intros pre tp ma mb a b rest _ Hpre Ha Hb.
-  destruct (toy_import_shape ma a Ha) as [Hna [wa [Ea Hwa]]].
-  destruct (toy_import_shape mb b Hb) as [Hnb [wb [Eb Hwb]]].
-  assert (HX : toy_lines (lines_aux (a ++ b ++ rest) []) = None).
-  { rewrite (lines_aux_prefix a _ [] Hna), (lines_aux_prefix b _ _ Hnb). cbn [app].
-    destruct (lines_aux_head rest (a ++ b)) as [h [t [Hl _]]]. rewrite Hl. cbn [toy_lines].
-    assert (HL : toy_line ((a ++ b) ++ h) = None).
-    { rewrite Ea, Eb. cbn [app L String.list_ascii_of_string]. unfold toy_line.
-      cbn [startswith ascii_eqb Ascii.eqb Bool.eqb andb]. cbn [skipn].
-      rewrite !no_space_app. cbn. rewrite andb_false_r. reflexivity. }
-    rewrite HL. reflexivity. }
-  unfold toy_parse, lines. destruct Hpre as [E|[p E]]; subst pre.
-  - cbn [app]. exact HX.
-  - rewrite <- app_assoc. cbn [app]. rewrite lines_aux_app_nl, toy_lines_app, HX.
-    destruct (toy_lines (lines_aux p [])); reflexivity.
-Qed.
-
 Lemma segs_outside_quote_free : forall s, quote_free s = true -> forall r, segs (s ++ r) false [] = segs r false [].
 Proof.
   induction s as [|c s' IH]; intros H r; [reflexivity|].
@@ -1809,10 +1681,9 @@ Proof.
   - intros s tops H. unfold toy_parse in H. apply (toy_lines_wf (lines s)); [|exact H].
     apply lines_aux_elems. reflexivity.
   - exact toy_all.
-  - exact toy_glue.
 Qed.
 
-(* the toy parser does produce import statements, so P_glue says something *)
+(* the toy parser does produce import statements *)
 Example toy_parses_imports :
   toy_parse (L "import os" ++ [nl] ++ L "import sys" ++ [nl]) = Some [TImport None (L "import os"); TImport None (L "import sys")]
   /\ toy_parse (L "import os" ++ L "import sys") = None.
@@ -1822,11 +1693,16 @@ Proof. vm_compute. split; reflexivity. Qed.
 Theorem C19_refuted_nonvacuous : exists ps, python_like ps /\ ~ C19_statement ps.
 Proof. exists toy_parse. split; [exact python_like_toy|apply C19_refuted_lemma; exact python_like_toy]. Qed.
 
-(* derived forms of two instances, as stated in props/C19.v *)
+(* derived forms of some instances, as stated in props/C19.v *)
 Lemma C19_nonvacuous_lemma :
   guard_C19 (table_parse w_in_guard_tab) w_in_guard = true
   /\ exists written, snd (run_c19 (table_parse w_in_guard_tab) w_in_guard) = Some written.
 Proof. split; [exact (proj1 w_in_guard_in_guard)|eexists; exact (proj2 w_in_guard_in_guard)]. Qed.
+
+Lemma C19_nonvacuous_function_lemma :
+  guard_C19 (table_parse w_in_guard_function_tab) w_in_guard_function = true
+  /\ exists written, snd (run_c19 (table_parse w_in_guard_function_tab) w_in_guard_function) = Some written.
+Proof. split; [exact (proj1 w_in_guard_function_in_guard)|eexists; exact (proj2 w_in_guard_function_in_guard)]. Qed.
 
 Lemma C19_witness_api_appends_lemma :
   C19_domain (table_parse w_api_appends_tab) w_api_appends = true
